@@ -770,6 +770,19 @@ class Model(Object):
                     model_metabolite._reaction.add(reaction)
                     if context:
                         context(partial(model_metabolite._reaction.remove, reaction))
+                        if model_metabolite is not metabolite:
+                            # give the reaction its own metabolite object back (it may
+                            # return to a state in which that object is the model's)
+                            context(
+                                partial(
+                                    reaction._metabolites.__setitem__,
+                                    metabolite,
+                                    stoichiometry,
+                                )
+                            )
+                            context(
+                                partial(reaction._metabolites.pop, model_metabolite)
+                            )
             reaction.update_genes_from_gpr()
 
         self.reactions += pruned
